@@ -97,11 +97,21 @@ def scenario(ctx, script_key, stop_api, with_next, max_preempt, later=False):
             simsched.Sched.cur_sched = s
             if stop_api == 'stop_next':
                 # the stop is aimed at the job queued behind: it takes effect once that job has been started
-                for attempt in range(24):
+                # sleep while the job in front is still sending commands, then keep asking without
+                # sleeping, so that the requests can interleave with the hand-over to the next job
+                n_main = 4 if script_key == 'straight' else 3
+                for attempt in range(200):
+                    if len([e for e in net.trace if e[0] == 'power' and e[1] in ('A', 'B')]) >= n_main:
+                        break
+                    simsched.ShimTime.sleep(TICK / 5)
+                for attempt in range(60):
                     marks['result'] = jc.stop_job('next')
                     if marks['result']:
                         break
-                    simsched.ShimTime.sleep(TICK)
+                    if attempt % 8 == 7:
+                        simsched.ShimTime.sleep(TICK / 5)
+                    else:
+                        s.yield_point('retry')
             elif stop_api == 'stop_job':
                 marks['result'] = jc.stop_job('main')
             elif stop_api == 'stop_current':
